@@ -22,16 +22,24 @@ var clockBase = time.Date(2100, 1, 1, 0, 0, 0, 0, time.UTC)
 type fakeClock struct {
 	now      int64
 	readings []int64
-	frozen   bool // diagnostics mode: readings neither advance the clock nor are recorded
+	frozen   bool  // diagnostics mode: readings neither advance the clock nor are recorded
+	gen      int   // generation of the TimeKeeper that is currently CONFIGURED (see `rebuild`)
+	offset   int64 // what the configured TimeKeeper adds to the underlying counter
 }
 
-func (c *fakeClock) Now() time.Time {
-	r := c.now
+func (c *fakeClock) Now() time.Time { return c.nowOf(0, 0) }
+
+// nowOf is the reading of the TimeKeeper of generation gen (which adds off to the counter).  Only readings of the
+// configured generation are recorded: a reading taken through a TimeKeeper that has been replaced is foreign.
+func (c *fakeClock) nowOf(gen int, off int64) time.Time {
+	r := c.now + off
 	if c.frozen {
 		return clockBase.Add(time.Duration(r))
 	}
 	c.now++
-	c.readings = append(c.readings, r)
+	if gen == c.gen {
+		c.readings = append(c.readings, r)
+	}
 	return clockBase.Add(time.Duration(r))
 }
 
@@ -595,6 +603,15 @@ func (circuitSuite) Run(h map[string]string, ops []string) []string {
 				} else {
 					e.c.SetConfigThreadSafe(e.base)
 				}
+			case "rebuild":
+				// reconfigure through SetConfigNotThreadSafe with another TimeKeeper: from now on every timestamp must
+				// be a reading of THAT one
+				e.clk.gen++
+				e.clk.offset += 1_000_000_000_000
+				gen, offs := e.clk.gen, e.clk.offset
+				e.base.General.TimeKeeper.Now = func() time.Time { return e.clk.nowOf(gen, offs) }
+				e.callbacks = nil
+				e.c.SetConfigNotThreadSafe(e.base)
 			case "tick":
 				e.clk.now += atoi(f[1])
 			case "fire":
@@ -782,8 +799,14 @@ func (circuitSuite) Gen(r *rand.Rand, i int) Case {
 			c.Ops = append(c.Ops, strings.TrimSpace("setcfg "+strings.Join(parts, " ")))
 			tag("setcfg")
 		case x < 94:
-			c.Ops = append(c.Ops, fmt.Sprintf("tick %d", []int64{1, owidth - 1, owidth, odur - 1, odur, sleep - 1, sleep, sleep + 1, 3 * odur}[r.Intn(9)]))
-			tag("tick")
+			if r.Intn(6) == 0 {
+				c.Ops = append(c.Ops, "rebuild")
+				tag("rebuild-with-new-clock")
+				armed = 0
+			} else {
+				c.Ops = append(c.Ops, fmt.Sprintf("tick %d", []int64{1, owidth - 1, owidth, odur - 1, odur, sleep - 1, sleep, sleep + 1, 3 * odur}[r.Intn(9)]))
+				tag("tick")
+			}
 		case x < 98:
 			k := r.Intn(armed + 2)
 			if armed > 0 && r.Intn(2) == 0 {
